@@ -75,6 +75,9 @@ func qexec(p qparams, ctl *explore.Ctl) explore.Result {
 		{Name: proto.String("big"), Password: proto.String("pw-b"), Quotas: []*appctlpb.Quota{{Days: proto.Int32(30), Megabytes: proto.Int32(100000)}}},
 	}
 	cfg := world.Config{UDP: p.UDP, MTU: 1400, Users: users, Seed: p.Seed, Horizon: 120 * time.Second, NoClient: true, NoWait: p.NoWait}
+	if p.Ds > 0 && thoroughTier {
+		cfg.Stalls = []time.Duration{5 * time.Millisecond, 1500 * time.Millisecond}
+	}
 	// bytes the server application read / wrote, per user (the tag encodes the user)
 	var appRead, appWrote [3]int64
 	refusedRead := int64(0)
@@ -273,7 +276,11 @@ func short(s string) string {
 	return s
 }
 
+// thoroughTier: the concurrent-open scenario also explores goroutines held up before an atomic write
+var thoroughTier bool
+
 func quotaUnits(tier string) []runner.Unit {
+	thoroughTier = tier == "thorough"
 	run := func(u *runner.U, p qparams) {
 		u.Sample(p.String())
 		u.Explore(explore.Bound{Ds: p.Ds}, p.String(), func(ctl *explore.Ctl) explore.Result { return qexec(p, ctl) })
